@@ -663,7 +663,8 @@ func (self Node) Indexes(ins []PathNode, opts *Options) error {
 				continue
 			}
 			k := id.Path.int()
-			if k >= it.size {
+			// size = 0: the list node is in lazyload mode and its size is not known
+			if it.size > 0 && k >= it.size {
 				continue
 			}
 			if k == i {
